@@ -231,7 +231,7 @@ def _gwork(args):
     return fn(_H, chunk)
 
 
-def write_cfg(label, constants, invariants=('Emit',), extra_cfg='', spec=None, properties=()):
+def write_cfg(label, constants, invariants=('Emit',), extra_cfg='', spec=None, properties=(), next_='Next'):
     cfgdir = os.path.join('/tmp', 'verif_cfg_%d' % os.getpid())
     os.makedirs(cfgdir, exist_ok=True)
     cfgpath = os.path.join(cfgdir, label)
@@ -243,7 +243,7 @@ def write_cfg(label, constants, invariants=('Emit',), extra_cfg='', spec=None, p
         if spec:
             f.write('SPECIFICATION %s\n' % spec)
         else:
-            f.write('INIT Init\nNEXT Next\n')
+            f.write('INIT Init\nNEXT %s\n' % next_)
         for inv in invariants:
             f.write('INVARIANT %s\n' % inv)
         for pr in properties:
